@@ -6,6 +6,7 @@ contents are.
 -/
 import ElfioVerif.Model.TableQuery
 import ElfioVerif.Lemmas.Reloc
+import ElfioVerif.Lemmas.SymbolsTie
 namespace ElfioVerif
 open Gen
 
@@ -123,7 +124,7 @@ theorem symbolsNum_spec (t : SymTab) :
       exact Nat.le_refl _
     · rw [if_neg hc]
       exact ⟨0, rfl, by simp, fun h => absurd rfl h⟩
-  unfold SymTab.symbolsNum
+  rw [SymTab.symbolsNum_hand]
   cases cls
   · exact key sym_num_min32 (by decide)
   · exact key sym_num_min64 (by decide)
